@@ -26,8 +26,10 @@ type Dir struct {
 	FileLen       int
 }
 
-func be16(b []byte) int    { return int(b[0])<<8 | int(b[1]) }
-func be32(b []byte) uint32 { return uint32(b[0])<<24 | uint32(b[1])<<16 | uint32(b[2])<<8 | uint32(b[3]) }
+func be16(b []byte) int { return int(b[0])<<8 | int(b[1]) }
+func be32(b []byte) uint32 {
+	return uint32(b[0])<<24 | uint32(b[1])<<16 | uint32(b[2])<<8 | uint32(b[3])
+}
 
 // Checksum adds the big-endian 32-bit words of b, b being extended by zero bytes to a
 // multiple of four, modulo 2^32.
@@ -88,3 +90,89 @@ func (d *Dir) DataEnd() int {
 
 // Halves splits a 32-bit word into 16-bit halves (TLC integers are 32-bit signed).
 func Halves(x uint32) [2]int { return [2]int{int(x >> 16), int(x & 0xFFFF)} }
+
+// Table is a named table body.
+type Table struct {
+	Tag  string
+	Data []byte
+}
+
+// Tables returns the tables of a file in physical order (by offset, then by tag).
+func (d *Dir) Tables(file []byte) []Table {
+	recs := append([]Record(nil), d.Recs...)
+	for i := 1; i < len(recs); i++ { // insertion sort: few records
+		for j := i; j > 0 && (recs[j].Off < recs[j-1].Off ||
+			recs[j].Off == recs[j-1].Off && string(recs[j].Tag[:]) < string(recs[j-1].Tag[:])); j-- {
+			recs[j], recs[j-1] = recs[j-1], recs[j]
+		}
+	}
+	var res []Table
+	for _, r := range recs {
+		if r.Inside {
+			res = append(res, Table{Tag: string(r.Tag[:]), Data: append([]byte{}, file[r.Off:r.Off+r.Len]...)})
+		}
+	}
+	return res
+}
+
+func put16(b []byte, x int) { b[0], b[1] = byte(x>>8), byte(x) }
+func put32(b []byte, x uint32) {
+	b[0], b[1], b[2], b[3] = byte(x>>24), byte(x>>16), byte(x>>8), byte(x)
+}
+
+// Assemble builds an sfnt container whose tables lie in the given physical order (an
+// independent writer: directory sorted by tag, zero padding, checksums, head adjustment).
+// The last table is padded only if padLast is set.
+func Assemble(scaler uint32, tabs []Table, padLast bool) []byte {
+	n := len(tabs)
+	e := 0
+	for 1<<(e+1) <= n {
+		e++
+	}
+	hdr := make([]byte, 12+16*n)
+	put32(hdr, scaler)
+	put16(hdr[4:], n)
+	if n > 0 {
+		put16(hdr[6:], 16<<e)
+		put16(hdr[8:], e)
+		put16(hdr[10:], 16*n-16<<e)
+	}
+	order := make([]int, n) // directory order: by tag
+	for i := range order {
+		order[i] = i
+	}
+	for i := 1; i < n; i++ {
+		for j := i; j > 0 && tabs[order[j]].Tag < tabs[order[j-1]].Tag; j-- {
+			order[j], order[j-1] = order[j-1], order[j]
+		}
+	}
+	offs := make([]int, n)
+	body := []byte{}
+	headAt := -1
+	for i, t := range tabs {
+		offs[i] = len(hdr) + len(body)
+		data := append([]byte{}, t.Data...)
+		if t.Tag == "head" && len(data) >= 12 {
+			put32(data[8:], 0)
+			headAt = offs[i]
+		}
+		body = append(body, data...)
+		if i < n-1 || padLast {
+			for len(body)%4 != 0 {
+				body = append(body, 0)
+			}
+		}
+	}
+	for q, i := range order {
+		rec := hdr[12+16*q:]
+		copy(rec, tabs[i].Tag)
+		put32(rec[4:], Checksum(body[offs[i]-len(hdr):offs[i]-len(hdr)+len(tabs[i].Data)]))
+		put32(rec[8:], uint32(offs[i]))
+		put32(rec[12:], uint32(len(tabs[i].Data)))
+	}
+	file := append(hdr, body...)
+	if headAt >= 0 {
+		put32(file[headAt+8:], 0xB1B0AFBA-Checksum(file))
+	}
+	return file
+}
